@@ -37,7 +37,7 @@ func c03LiveHistory(r *ev.Run, label string, steps int) {
 	w.noRefile = true
 
 	c := &c03Case{r: r, label: label, rng: rng, s: w.s, model: newMailModel(c03Boxes...)}
-	uidOf := map[string]map[uint32]string{}  // box -> uid -> marker (current)
+	uidOf := map[string]map[uint32]string{}   // box -> uid -> marker (current)
 	everUID := map[string]map[uint32]string{} // box -> uid -> marker (ever)
 
 	for _, b := range c03Boxes {
